@@ -121,6 +121,14 @@ func c16Do(shape int, v any, vk int, bind func(dest any) error, ref bool) c16Out
 	case 8: // untyped nil
 		err := call(nil)
 		return c16Outcome{err != nil, nil}
+	case 11: // a struct destination that already holds defaults (json merges into it)
+		d := c16T{A: 7, B: "keep"}
+		err := call(&d)
+		return c16Outcome{err != nil, d}
+	case 12: // a map destination that already holds a key
+		d := map[string]any{"old": 1}
+		err := call(&d)
+		return c16Outcome{err != nil, d}
 	case 9: // a named type of the same kind as a string value (a *different* type: JSON path)
 		var d vMyStr
 		err := call(&d)
@@ -132,7 +140,7 @@ func c16Do(shape int, v any, vk int, bind func(dest any) error, ref bool) c16Out
 	}
 }
 
-const c16Shapes = 11
+const c16Shapes = 13
 
 func c16Check(v any, vk, shape int, got c16Outcome, panicked bool) {
 	vAssert(!panicked, "bind-never-panics")
@@ -144,7 +152,10 @@ func c16Check(v any, vk, shape int, got c16Outcome, panicked bool) {
 		vAssert(got.isErr, "nil-or-non-pointer-destination-is-an-error")
 		return
 	}
-	sameType := shape == 0 || (shape == 1 && vk == 1) || (shape == 3 && vk == 2) || (shape == 5 && (vk == 0 || vk == 7))
+	sameType := shape == 0 || ((shape == 1 || shape == 11) && vk == 1) || (shape == 3 && vk == 2) || ((shape == 5 || shape == 12) && (vk == 0 || vk == 7))
+	if shape >= 11 {
+		vCover("pre-populated-destination")
+	}
 	if sameType {
 		vCover("same-type")
 		vAssert(!got.isErr, "same-type-bind-succeeds")
